@@ -28,6 +28,14 @@ CHECKS = {
    text="K clones (and, separately, several threads on one object) are interleaved instruction by instruction and at lock sites by a seeded scheduler; every clone must return exactly what it returns alone on a separately compiled copy, untouched objects must stay unchanged, operations on one object must equal a serial witness in lock order, and the Go race detector - made independent of timing by hiding the simulator's own hand-offs and draining sync.Pools at every context switch - must report no conflicting unsynchronised accesses in tengo code. Sampling, not proof.",
    note="Trusts the Go race detector's happens-before analysis (bounded shadow history), the separately compiled baseline, and the rule that the simulator never touches tengo memory from the controller. Two genuine races found on the pinned tree were repaired by fix: commits (recorded in known_findings.json as fixed).",
    tech="deterministic simulation: seeded interleaving of clone executions on real goroutines + happens-before race analysis with simulator hand-offs hidden; solo-run and serial-witness oracles"),
+ "C06": dict(cat="fault_enumeration", ref="DESIGN.md 5.3",
+   text="The allocation budget is the library's own allocation-failure injector: for every generated program the budget N is swept over every allocation index; relations between the runs are the oracle (limit error below the threshold, success with the unlimited run's globals at and above it, one more object-creating operation of each documented kind raises the threshold, k literal statements need a budget of at least k). String/bytes growers are run under a 4x4 grid of length maxima with every reachable String/Bytes measured after every run; recursion ladders are run around and beyond the frame and operand-stack capacity. Programs are sampled; the fault index space of each program is enumerated.",
+   note="Oracles are relations between runs of the same implementation under different limit settings; no implementation constant is mirrored except the exported StackSize/MaxFrames. Counting a site twice is deliberately not reported (the statement 'at most N' still holds).",
+   tech="fault enumeration with the allocation budget as injector (crash-point sweep over every allocation index), limit knobs varied per run, unlimited run as reference"),
+ "C14": dict(cat="fault_enumeration", ref="DESIGN.md 5.5",
+   text="Fault enumeration over host-call indexes: call-tree programs with marker host calls make the failing statement and the active call chain known by construction; every k-th host call is failed in turn, planted sentinel failures (index out of bounds, string/bytes limit, ill-typed operand, non-callable), the frame-limit ladder and an allocation-budget sweep are run; the reported location, every trace entry and errors.Is identity are compared with the constructed expectation. Programs are sampled; the fault index space of each program is enumerated.",
+   note="Locations are checked at file+line granularity (one statement per line by construction); failing VM-internal operation kinds are covered where the generator plants them (sampled, not enumerated).",
+   tech="fault enumeration: fail the k-th host call / N-th allocation / frame supply for every k on marker-instrumented call-tree workloads; expectation known by construction"),
  "C07": dict(cat="exploration", ref="DESIGN.md 5.1",
    text="Seeded search over cancellation instants (every hand-off site of RunContext, any VM instruction, during a blocking host call, after return), context kinds, caller stalls and thread interleavings of {caller, VM goroutine, fake clock}, on the real code; oracles: returned error vs. context state and vs. the undisturbed run, bounded-step promptness, no VM activity or goroutine after return, re-run equals a fresh object. Sampling, not proof.",
    note="Trusts the guarded hooks (no-ops without the tag), testing/synctest quiescence detection and the simulator's own bookkeeping; interleavings within one VM instruction and the runtime's coin flip in a both-ready select are not explored.",
